@@ -19,9 +19,10 @@ Proof. intros [|f fl]; unfold zlen, region_rows; cbn [length]; [reflexivity|]. r
 Lemma frame_lines_shape : forall c s, exists w, snd (frame_lines c s) = (w, zlen (fst (frame_lines c s))).
 Proof.
   intros c s. unfold frame_lines. destruct (c_progress c).
-  - unfold progress_lines. destruct (grow_shape (c_W c) (shape s) (table_width (lr s)) (zlen (lr s))) as [w h] eqn:E.
+  - set (rows := progress_rows (c_prog_crop c) (c_H c) (lr s)).
+    unfold progress_lines. destruct (grow_shape (c_W c) (shape s) (table_width rows) (zlen rows)) as [w h] eqn:E.
     cbn [fst snd]. exists w. f_equal. unfold zlen. rewrite app_length, map_length, repeat_length.
-    assert (zlen (lr s) <= h).
+    assert (zlen rows <= h).
     { unfold grow_shape in E. destruct (shape s) as [[w2 h2]|]; injection E as <- <-; lia. }
     unfold zlen in *. lia.
   - cbn [fst snd]. eexists. reflexivity.
@@ -526,14 +527,14 @@ Qed.
 
 Example ops_ok_nonvacuous :
   (* frames that grow, shrink, become empty and exceed the page; ellipsis; prints and a log *)
-  let c := mkCfg false false OEllipsis 12 3 None None true false false false false in
+  let c := mkCfg false false OEllipsis 12 3 None None true false false false false false in
   ops_ok c (st0 c (w_lines 2))
     [Print (w_lines 1); Start; Refresh; Print (w_lines 4); Update (w_lines 7) true; Log (w_lines 1);
      Update [] false; Print (w_lines 1); Update (w_lines 1) true; Start; Stop; Print (w_lines 1)] = true.
 Proof. vm_compute. reflexivity. Qed.
 
 Example ops_ok_nonvacuous_progress :
-  let c := mkCfg true true OEllipsis 12 4 None None true false false false false in
+  let c := mkCfg true true OEllipsis 12 4 None None true false false false false false in
   ops_ok c (st0 c (w_lines 2))
     [Start; Print (w_lines 5); Update (w_lines 3) true; Update [] true; Log (w_lines 1); Stop] = true.
 Proof. vm_compute. reflexivity. Qed.
